@@ -886,7 +886,13 @@ def job_swing_run(arg):
     except Exception as e:  # noqa: BLE001
         return [{"kind": "raised", "exc": type(e).__name__, "msg": str(e)[:300], "args": list(arg), "tb": traceback.format_exc()[-1200:]}]
     out = []
+    # the reporting units according to the FEED: rows at or above the threshold (100) that are in the baseline (the
+    # elections are built so that none of them is set aside by a turnout-factor rule; the outlier models are off)
+    n_feed_reporting = int(((cur.percent_expected_vote >= 100) & cur.geographic_unit_fips.isin(pre.geographic_unit_fips)).sum())
     for k, c in enumerate(calls):
+        if len(c["rep"]) != n_feed_reporting:
+            out.append({"kind": "raised", "exc": "ReportingUnitsDiffer", "msg": f"the feed has {n_feed_reporting} reporting units, the model was handed {len(c['rep'])}", "args": list(arg), "tb": ""})
+            continue
         rec = {
             "rep": [{"b": b, "c": cc} for b, cc in c["rep"]],
             "non": [{"b": b, "partial": pp} for b, pp in c["non"]],
